@@ -7,13 +7,15 @@ import framework as fw
 
 LEVEL = "proof"
 USE_TWINS = True
+EXTRACTORS = ["ice_consts"]
 TECHNIQUE = "Lean 4 theorems over the real-number reading of a twin model + Float-twin differential run"
 RULE = ("shipped ices (Antarctic, Arasim, Greenland) and random (n0,k,a,range,index_above/below) x depths "
         "from above the surface to below the range incl. the exact bounds and bound +- ulp x index values "
         "across and outside the range; a case is non-trivial when the ice is exponential with k,a>0; distinct "
         "= distinct (ice, op, argument) tuples")
 LEVEL_TEXT = ("theorems (index outside/inside, strict monotonicity, inverse both ways with clamping, gradient = "
-              "derivative) proved over R for every parameter set with k,a>0; the same model text run on Float "
+              "derivative; attenuation positivity for all three models incl. the extracted AraSim table, matrix = scalar "
+              "entries, uniform ice, layer dispatch partition) proved over R for every parameter set with k,a>0; the same model text run on Float "
               "agrees with pyrex.ice_model on every sampled input")
 LEVEL_NOTE = ("floating-point rounding is not modelled (tolerance run); depth_with_index is compared only where "
               "the index is distinguishable from n0 (|n0-n| >= 1e-9)")
@@ -73,12 +75,30 @@ def correspondence(run):
         if not fw.all_close(arrd, expect[-1], 1e-12):
             run.note_broken("correspondence: depth_with_index scalar/array disagree for %s" % name)
             return False
+    more_ok = more_requests(run, reqs, expect, descs)
     replies = fw.run_driver("C16", reqs)
-    ok = True
+    ok = more_ok
     for rq, ex, rp, d in zip(reqs, expect, replies, descs):
+        if d[1] == "layer":
+            run.case(d, sample={"op": "layer", "stack": d[2][:6], "impl": ex[:6]})
+            if rp.split() == ex:
+                run.traces += 1
+            else:
+                ok = False
+                run.note_broken("correspondence: layer dispatch %s model=%s impl=%s" % (d[2], rp, ex))
+            continue
+        if d[1] == "defaults":
+            parts = [[None if t == "-" else fw.b2f(t) for t in half.split()] for half in rp.split(" | ")]
+            run.case(d, sample={"op": "defaults", "model": parts})
+            if parts == ex:
+                run.traces += 1
+            else:
+                ok = False
+                run.note_broken("correspondence: shipped default parameters model=%s impl=%s" % (parts, ex))
+            continue
         got = fw.unfl(rp.split()) if rp != "bad-op" else None
         run.case(d, nontrivial=True, sample={"ice": d[0], "op": d[1], "args": list(d[2])[:4], "impl": ex[:4]})
-        tol = 1e-9 if d[1] != "depth" else 1e-6
+        tol = {"depth": 1e-6, "atten": 1e-7, "temp": 1e-9}.get(d[1], 1e-9)
         if got is not None and fw.all_close(got, ex, tol, 1e-9):
             run.traces += 1
         else:
@@ -88,9 +108,99 @@ def correspondence(run):
     return ok
 
 
+def shipped():
+    from pyrex.ice_model import AntarcticIce, ArasimIce, GreenlandIce
+    return [("antarctic", AntarcticIce()), ("arasim", ArasimIce()), ("greenland", GreenlandIce())]
+
+
+def more_requests(run, reqs, expect, descs):
+    """attenuation (all four shapes), temperatures, constructor defaults, UniformIce, LayeredIce"""
+    from pyrex.ice_model import AntarcticIce, GreenlandIce, UniformIce
+    from pyrex.custom.layered_ice import LayeredIce
+    ok = True
+    a, g = AntarcticIce(), GreenlandIce()
+    o = lambda v: None if v is None else float(v)
+    reqs.append("defaults"); descs.append(("shipped", "defaults", ()))
+    expect.append([[a.n0, a.k, a.a, a.valid_range[0], a.valid_range[1], o(a._index_above), o(a._index_below)],
+                   [g.n0, g.k, g.a, g.valid_range[0], g.valid_range[1], o(g._index_above), o(g._index_below)]])
+    for name, ice in shipped():
+        lo, hi = ice.valid_range
+        for rep in range(run.scale(3, 20)):
+            zs = [float(z) for z in [lo, hi] + [run.rng.uniform(lo, hi) for _ in range(run.rng.randint(1, 5))]]
+            fs = [1e9, float(np.nextafter(1e9, 0)), 75e6, 3e9] + [10 ** run.rng.uniform(6.5, 9.7) for _ in range(run.rng.randint(1, 4))]
+            za, fa = np.array(zs), np.array(fs)
+            mat = np.asarray(ice.attenuation_length(za, fa), dtype=float)
+            # the documented shapes, each entry equal to the scalar evaluation
+            if mat.shape != (len(zs), len(fs)):
+                ok = False; run.note_broken("correspondence: %s attenuation matrix shape %s" % (name, mat.shape))
+                continue
+            row = np.asarray(ice.attenuation_length(zs[0], fa), dtype=float)
+            col = np.asarray(ice.attenuation_length(za, fs[0]), dtype=float)
+            if row.shape != (len(fs),) or col.shape != (len(zs),):
+                ok = False; run.note_broken("correspondence: %s attenuation row/col shape %s %s" % (name, row.shape, col.shape))
+                continue
+            for i, z in enumerate(zs):
+                for j, f in enumerate(fs):
+                    sc = float(ice.attenuation_length(z, f))
+                    if not (fw.close(sc, mat[i, j], 1e-12) and (i > 0 or fw.close(sc, row[j], 1e-12))
+                            and (j > 0 or fw.close(sc, col[i], 1e-12))):
+                        ok = False
+                        run.note_broken("correspondence: %s attenuation matrix entry (%d,%d) != scalar evaluation: %r vs %r"
+                                        % (name, i, j, float(mat[i, j]), sc))
+            reqs.append("atten %s %d %s %d %s" % (name, len(zs), fw.fl(zs), len(fs), fw.fl(fs)))
+            expect.append([float(v) for v in mat.flatten()]); descs.append((name, "atten", tuple(zs) + tuple(fs)))
+            run.count("atten_" + name)
+        if name != "arasim":
+            zs = [float(run.rng.uniform(lo, hi)) for _ in range(6)]
+            reqs.append("temp %s %s" % (name, fw.fl(zs)))
+            expect.append([float(ice.temperature(z)) - 273.15 for z in zs]); descs.append((name, "temp", tuple(zs)))
+    for rep in range(run.scale(4, 30)):
+        n = run.rng.uniform(1.2, 1.9)
+        lo = -run.rng.uniform(50, 3000); hi = run.rng.choice([0.0, -run.rng.uniform(0, 40)])
+        ab = run.rng.choice([1, None, 1.1]); be = run.rng.choice([None, 1.9])
+        u = UniformIce(index=n, valid_range=(lo, hi), index_above=ab, index_below=be)
+        zs = [lo, hi, float(np.nextafter(lo, -np.inf)), float(np.nextafter(hi, np.inf)), lo - 5, hi + 5] + \
+             [run.rng.uniform(lo - 10, hi + 10) for _ in range(5)]
+        sca = [float(u.index(z)) for z in zs]
+        if [float(v) for v in u.index(np.array(zs))] != sca or any(u.gradient(z)[2] != 0 for z in zs):
+            ok = False; run.note_broken("correspondence: UniformIce scalar/array index disagree or gradient != 0")
+        opt = lambda v: "-" if v is None else str(fw.f2b(v))
+        reqs.append("uindex %s %s %s %s" % (fw.fl([n, lo, hi]), opt(ab), opt(be), fw.fl(zs)))
+        expect.append(sca); descs.append(("uniform", "uindex", tuple(zs)))
+        run.count("uniform_ice")
+    for rep in range(run.scale(6, 40)):
+        nl = run.rng.randint(1, 4)
+        bounds = sorted({round(-run.rng.uniform(10, 2000), 1) for _ in range(nl)} | {0.0}, reverse=True)
+        if len(bounds) < 2:
+            continue
+        layers = [UniformIce(index=1.3 + 0.1 * i, valid_range=(bounds[i + 1], bounds[i]), index_above=None,
+                             index_below=None) if run.rng.random() < 0.5 else
+                  AntarcticIce(valid_range=(bounds[i + 1], bounds[i]), index_above=None, index_below=None)
+                  for i in range(len(bounds) - 1)]
+        run.rng.shuffle(layers)
+        li = LayeredIce(layers)
+        stack = [(l.valid_range[0], l.valid_range[1]) for l in li.layers]
+        zs = list(bounds) + [b + 1e-9 for b in bounds] + [run.rng.uniform(bounds[-1] - 5, 5) for _ in range(6)]
+        imp = []
+        for z in zs:
+            try:
+                lay = li.layer_at_depth(z)
+                imp.append(str(li.layers.index(lay)))
+                # index dispatch: the layered index is the containing layer's index
+                if li.index(z) != lay.index(z):
+                    ok = False; run.note_broken("correspondence: LayeredIce.index(%r) != layer.index" % z)
+            except ValueError:
+                imp.append("none")
+        reqs.append("layer %d %s %s" % (len(stack), fw.fl([v for p in stack for v in p]), fw.fl(zs)))
+        expect.append(imp); descs.append(("layered", "layer", tuple(v for p in stack for v in p)))
+        run.count("layer_stacks")
+    return ok
+
+
 def search(run, deep):
     """property-level oracle on the implementation alone"""
     n = run.scale(1, 5) if not deep else 5
+    search_atten(run)
     for rep in range(n):
         for name, ice in ices(run):
             lo, hi = ice.valid_range
@@ -121,5 +231,19 @@ def search(run, deep):
                                what="index outside the valid range is not the declared index")
 
 
+def search_atten(run):
+    for name, ice in shipped():
+        lo, hi = ice.valid_range
+        zs = np.array([lo, hi] + [run.rng.uniform(lo, hi) for _ in range(20)])
+        fs = np.array([10 ** run.rng.uniform(6, 10) for _ in range(12)])
+        m = np.asarray(ice.attenuation_length(zs, fs), dtype=float)
+        run.case((name, "atten-oracle", float(zs[2])))
+        bad = np.argwhere(~(np.isfinite(m) & (m > 0)))
+        for i, j in bad[:3]:
+            run.fail_input("atten-positive", {"ice": name, "z": float(zs[i]), "f": float(fs[j])}, observed=float(m[i, j]),
+                           what="attenuation length not positive and finite")
+
+
 def replay(run, data):
     search(run, True)
+    search_atten(run)
